@@ -1060,6 +1060,18 @@ func (s c10Scenario) protected() (lse, reserved, sysExcl map[int]bool) {
 	return
 }
 
+func (s c10Scenario) hasOwners() (hasLSE, hasLSR bool) {
+	for _, p := range s.Pods {
+		if p.QoS == "LSE" && len(p.CPUs) > 0 {
+			hasLSE = true
+		}
+		if p.QoS == "LSR" && len(p.CPUs) > 0 {
+			hasLSR = true
+		}
+	}
+	return
+}
+
 func (s c10Scenario) buildInformer() *c10Informer {
 	inf := &c10Informer{}
 	for i, p := range s.Pods {
@@ -1165,6 +1177,173 @@ func c10Target(milli int64, oldN, n int) (want, unlimited, step int) {
 	return
 }
 
+// c10SetEnv is the cgroup tree of one case plus the oracle's view of it (which CPUs exist / are protected / eligible).
+type c10SetEnv struct {
+	s                             c10Scenario
+	fs                            c10CgFS
+	exec                          *c10Exec
+	beRoot                        string
+	allDirs, ctrDirs              []string // allDirs = root, pod dirs, container dirs (in this order)
+	ids, eligible                 []int
+	exists, lse, reserved, sysExcl map[int]bool
+}
+
+func c10NewSetEnv(s c10Scenario, beRoot string, exec *c10Exec) *c10SetEnv {
+	env := &c10SetEnv{s: s, fs: c10CgFS{v2: s.V2}, exec: exec, beRoot: beRoot}
+	env.ids = s.Topo.ids()
+	env.exists = c10SetOf(env.ids)
+	env.lse, env.reserved, env.sysExcl = s.protected()
+	for _, id := range env.ids {
+		if !env.lse[id] && !env.reserved[id] && !env.sysExcl[id] {
+			env.eligible = append(env.eligible, id)
+		}
+	}
+	env.allDirs = append(env.allDirs, beRoot)
+	for _, d := range s.BEDirs {
+		env.allDirs = append(env.allDirs, filepath.Join(beRoot, d))
+	}
+	for _, d := range s.BEContainers {
+		env.ctrDirs = append(env.ctrDirs, filepath.Join(beRoot, d))
+	}
+	env.allDirs = append(env.allDirs, env.ctrDirs...)
+	return env
+}
+
+// prepare creates the BE cgroup directories, all holding the scenario's old cpuset.
+func (env *c10SetEnv) prepare() error {
+	for _, d := range env.allDirs {
+		if err := env.fs.writeCPUSet(d, c10FmtSet(env.s.Old)); err != nil {
+			return err
+		}
+	}
+	return nil
+}
+
+// readOld returns the BE root cpuset as the agent will read it at the start of a round.
+func (env *c10SetEnv) readOld(t *rapid.T) (string, int) {
+	oldStr, err := c10ReadTrim(env.fs.cpusetReadFile(env.beRoot))
+	if err != nil {
+		t.Fatalf("harness: cannot read BE root cpuset: %v", err)
+	}
+	old, err := c10ParseList(oldStr)
+	if err != nil {
+		t.Fatalf("harness: cannot parse BE root cpuset %q: %v", oldStr, err)
+	}
+	return oldStr, len(c10SetOf(old))
+}
+
+// refreshEffective does what the kernel would do on cgroup v2 after a write to cpuset.cpus.
+func (env *c10SetEnv) refreshEffective() {
+	if !env.s.V2 {
+		return
+	}
+	for _, d := range env.allDirs {
+		raw, _ := c10ReadTrim(env.fs.cpusetFile(d))
+		_ = c10WriteFile(env.fs.cpusetReadFile(d), raw)
+	}
+}
+
+func (env *c10SetEnv) read(t *rapid.T, c *vk.Case, dir, where string) (list []int, raw string, attempted bool) {
+	attempted = env.exec.attempts[env.fs.cpusetFile(dir)] > 0
+	raw, err := c10ReadTrim(env.fs.cpusetFile(dir))
+	if err != nil {
+		t.Fatalf("harness: cannot read %s: %v", dir, err)
+	}
+	list, err = c10ParseList(raw)
+	if err != nil {
+		c.Violation(t, "cpuset:unparsable-cpuset-written", "%s holds %q: %v; %s; scenario: %s", dir, raw, err, where, env.s)
+	}
+	return
+}
+
+// exclusion: distinct existing CPUs, none protected. Returns true when the case must be abandoned (known finding).
+func (env *c10SetEnv) exclusion(t *rapid.T, c *vk.Case, dir string, list []int, where string, hist []string) bool {
+	s := env.s
+	seen := map[int]bool{}
+	for _, id := range list {
+		if seen[id] {
+			return c.Violation(t, "cpuset:duplicate-cpu", "%s: cpu %d twice in %v; %s; scenario: %s; history=%v", dir, id, list, where, s, hist)
+		}
+		seen[id] = true
+		switch {
+		case !env.exists[id]:
+			return c.Violation(t, "cpuset:nonexistent-cpu", "%s: cpu %d written but not in the processor list; written=%q; %s; scenario: %s; history=%v", dir, id, c10FmtSet(list), where, s, hist)
+		case env.lse[id]:
+			return c.Violation(t, "cpuset:lse-cpu-in-be-set", "%s: cpu %d is owned by an LSE pod; written=%q; %s; scenario: %s; history=%v", dir, id, c10FmtSet(list), where, s, hist)
+		case env.reserved[id]:
+			return c.Violation(t, "cpuset:reserved-cpu-in-be-set", "%s: cpu %d is node-reserved; written=%q; %s; scenario: %s; history=%v", dir, id, c10FmtSet(list), where, s, hist)
+		case env.sysExcl[id]:
+			return c.Violation(t, "cpuset:system-exclusive-cpu-in-be-set", "%s: cpu %d is exclusive to system QoS; written=%q; %s; scenario: %s; history=%v", dir, id, c10FmtSet(list), where, s, hist)
+		}
+	}
+	return false
+}
+
+// observeSuppressed checks what a cpuset-mode round left under the cgroup root. stop = abandon the case.
+func (env *c10SetEnv) observeSuppressed(t *rapid.T, c *vk.Case, where string, hist []string, want, unlimited, step, oldN int) (result string, stop bool) {
+	s := env.s
+	e := len(env.eligible)
+	count := func(dir string, list []int, attempted bool) bool {
+		size := 0
+		if attempted {
+			size = len(list)
+		}
+		if size > unlimited {
+			return c.Violation(t, "cpuset:over-budget", "%s: %d cpus written (%q) > max(2, ceil(budget))=%d; %s; scenario: %s; history=%v", dir, size, c10FmtSet(list), unlimited, where, s, hist)
+		}
+		if size > want {
+			return c.Violation(t, "cpuset:over-step-limit", "%s: %d cpus written (%q) > old %d + step %d; %s; scenario: %s; history=%v", dir, size, c10FmtSet(list), oldN, step, where, s, hist)
+		}
+		if e >= want && size != want {
+			return c.Violation(t, "cpuset:fewer-than-target-though-eligible", "%s: %d cpus (%q, written=%v) but target is %d and %d CPUs are eligible; %s; scenario: %s; history=%v",
+				dir, size, c10FmtSet(list), attempted, want, e, where, s, hist)
+		}
+		return false
+	}
+	if s.Policy != "static" {
+		// every BE cgroup (root, pod, container) gets the derived set
+		for i, d := range env.allDirs {
+			list, raw, attempted := env.read(t, c, d, where)
+			if !attempted {
+				list = nil
+			}
+			if env.exclusion(t, c, d, list, where, hist) {
+				return result, true
+			}
+			if i == 0 {
+				result = fmt.Sprintf("%q(written=%v)", raw, attempted)
+				if count(d, list, attempted) {
+					return result, true
+				}
+			}
+		}
+		return result, false
+	}
+	// static kubelet policy: root and pod level are reset to "everything not protected", containers get the derived set
+	for _, d := range env.allDirs[:1+len(s.BEDirs)] {
+		list, _, attempted := env.read(t, c, d, where)
+		if attempted && env.exclusion(t, c, d, list, where, hist) {
+			return result, true
+		}
+	}
+	for i, d := range env.ctrDirs {
+		list, raw, attempted := env.read(t, c, d, where)
+		if !attempted {
+			list = nil
+		}
+		if env.exclusion(t, c, d, list, where, hist) {
+			return result, true
+		}
+		if count(d, list, attempted) {
+			return result, true
+		}
+		if i == 0 {
+			result = fmt.Sprintf("%q(written=%v)", raw, attempted)
+		}
+	}
+	return result, false
+}
+
 func TestVerifC10AdjustCPUSet(t *testing.T) {
 	c10Quiet()
 	rec := vk.New(t, "C10", "adjustByCPUSet")
@@ -1184,39 +1363,17 @@ func TestVerifC10AdjustCPUSet(t *testing.T) {
 
 		s := c10GenScenario(t)
 		helper.SetCgroupsV2(s.V2)
-		fs := c10CgFS{v2: s.V2}
-		ids := s.Topo.ids()
-		n := len(ids)
-		exists := c10SetOf(ids)
-		lse, reserved, sysExcl := s.protected()
-		var eligible []int
-		for _, id := range ids {
-			if !lse[id] && !reserved[id] && !sysExcl[id] {
-				eligible = append(eligible, id)
-			}
-		}
+		exec := c10NewExec()
+		env := c10NewSetEnv(s, beRoot, exec)
+		n := len(env.ids)
+		eligible := env.eligible
 		e := len(eligible)
-
-		// cgroup tree
-		var allDirs []string
-		allDirs = append(allDirs, beRoot)
-		for _, d := range s.BEDirs {
-			allDirs = append(allDirs, filepath.Join(beRoot, d))
-		}
-		var ctrDirs []string
-		for _, d := range s.BEContainers {
-			ctrDirs = append(ctrDirs, filepath.Join(beRoot, d))
-		}
-		allDirs = append(allDirs, ctrDirs...)
-		for _, d := range allDirs {
-			if err := fs.writeCPUSet(d, c10FmtSet(s.Old)); err != nil {
-				t.Fatalf("harness: cannot prepare cgroup dir: %v", err)
-			}
+		if err := env.prepare(); err != nil {
+			t.Fatalf("harness: cannot prepare cgroup dir: %v", err)
 		}
 
 		inf := s.buildInformer()
 		info := &metriccache.NodeCPUInfo{ProcessorInfos: append([]koordletutil.ProcessorInfo(nil), s.Topo.Procs...)}
-		exec := c10NewExec()
 		r := &CPUSuppress{
 			statesInformer:         inf,
 			metricCache:            &c10MetricCache{info: info},
@@ -1228,15 +1385,7 @@ func TestVerifC10AdjustCPUSet(t *testing.T) {
 		defer close(stop)
 		r.init(stop)
 
-		hasLSE, hasLSR := false, false
-		for _, p := range s.Pods {
-			if p.QoS == "LSE" && len(p.CPUs) > 0 {
-				hasLSE = true
-			}
-			if p.QoS == "LSR" && len(p.CPUs) > 0 {
-				hasLSR = true
-			}
-		}
+		hasLSE, hasLSR := s.hasOwners()
 		static := s.Policy == "static"
 		c.Class("mode:" + s.Mode)
 		c.Class("kubelet-policy:" + s.Policy)
@@ -1246,27 +1395,19 @@ func TestVerifC10AdjustCPUSet(t *testing.T) {
 		c.ClassIf(e == 1, "one-eligible-cpu")
 		c.ClassIf(hasLSE, "lse-pod-with-cpuset")
 		c.ClassIf(hasLSR, "lsr-pod-with-cpuset")
-		c.ClassIf(len(reserved) > 0, "node-reserved-cpus")
-		c.ClassIf(len(sysExcl) > 0, "system-qos-exclusive-cpus")
+		c.ClassIf(len(env.reserved) > 0, "node-reserved-cpus")
+		c.ClassIf(len(env.sysExcl) > 0, "system-qos-exclusive-cpus")
 		c.ClassIf(s.HasSystem && s.SystemExcl == "false" && len(s.System) > 0, "system-qos-shared-cpus")
 		c.ClassIf(len(s.Old) == 0, "old-cpuset-empty")
 		c.ClassIf(len(s.Topo.Offline) > 0, "offline-cpus")
 		c.ClassIf(s.NoTopo, "no-node-topology-object")
-		c.ClassIf(static && len(ctrDirs) == 0, "static-without-be-container(unobservable)")
+		c.ClassIf(static && len(env.ctrDirs) == 0, "static-without-be-container(unobservable)")
 
 		nRounds := rapid.IntRange(1, 3).Draw(t, "rounds")
 		var hist []string
 		nontrivial := false
 		for round := 0; round < nRounds; round++ {
-			oldStr, err := c10ReadTrim(fs.cpusetReadFile(beRoot))
-			if err != nil {
-				t.Fatalf("harness: cannot read BE root cpuset: %v", err)
-			}
-			old, err := c10ParseList(oldStr)
-			if err != nil {
-				t.Fatalf("harness: cannot parse BE root cpuset %q: %v", oldStr, err)
-			}
-			oldN := len(c10SetOf(old))
+			oldStr, oldN := env.readOld(t)
 			_, _, step := c10Target(0, oldN, n)
 			milli := c10GenBudgetMilli(t, e, oldN, n, step)
 			want, unlimited, step := c10Target(milli, oldN, n)
@@ -1300,61 +1441,10 @@ func TestVerifC10AdjustCPUSet(t *testing.T) {
 				c.Violation(t, sig, "adjustByCPUSet panicked: %v; %s; scenario: %s; history=%v", pnc, where, s, hist)
 				return
 			}
-
-			// observation: what was written under the temp cgroup root
-			read := func(dir string) (list []int, raw string, attempted bool) {
-				attempted = exec.attempts[fs.cpusetFile(dir)] > 0
-				raw, err := c10ReadTrim(fs.cpusetFile(dir))
-				if err != nil {
-					t.Fatalf("harness: cannot read %s: %v", dir, err)
-				}
-				list, err = c10ParseList(raw)
-				if err != nil {
-					c.Violation(t, "cpuset:unparsable-cpuset-written", "%s holds %q: %v; %s; scenario: %s", dir, raw, err, where, s)
-				}
-				return
-			}
-			exclusion := func(dir string, list []int) bool {
-				seen := map[int]bool{}
-				for _, id := range list {
-					if seen[id] {
-						return c.Violation(t, "cpuset:duplicate-cpu", "%s: cpu %d twice in %v; %s; scenario: %s; history=%v", dir, id, list, where, s, hist)
-					}
-					seen[id] = true
-					switch {
-					case !exists[id]:
-						return c.Violation(t, "cpuset:nonexistent-cpu", "%s: cpu %d written but not in the processor list; written=%q; %s; scenario: %s; history=%v", dir, id, c10FmtSet(list), where, s, hist)
-					case lse[id]:
-						return c.Violation(t, "cpuset:lse-cpu-in-be-set", "%s: cpu %d is owned by an LSE pod; written=%q; %s; scenario: %s; history=%v", dir, id, c10FmtSet(list), where, s, hist)
-					case reserved[id]:
-						return c.Violation(t, "cpuset:reserved-cpu-in-be-set", "%s: cpu %d is node-reserved; written=%q; %s; scenario: %s; history=%v", dir, id, c10FmtSet(list), where, s, hist)
-					case sysExcl[id]:
-						return c.Violation(t, "cpuset:system-exclusive-cpu-in-be-set", "%s: cpu %d is exclusive to system QoS; written=%q; %s; scenario: %s; history=%v", dir, id, c10FmtSet(list), where, s, hist)
-					}
-				}
-				return false
-			}
-			count := func(dir string, list []int, attempted bool) bool {
-				size := 0
-				if attempted {
-					size = len(list)
-				}
-				if size > unlimited {
-					return c.Violation(t, "cpuset:over-budget", "%s: %d cpus written (%q) > max(2, ceil(budget))=%d; %s; scenario: %s; history=%v", dir, size, c10FmtSet(list), unlimited, where, s, hist)
-				}
-				if size > want {
-					return c.Violation(t, "cpuset:over-step-limit", "%s: %d cpus written (%q) > old %d + step %d; %s; scenario: %s; history=%v", dir, size, c10FmtSet(list), oldN, step, where, s, hist)
-				}
-				if e >= want && size != want {
-					return c.Violation(t, "cpuset:fewer-than-target-though-eligible", "%s: %d cpus (%q, written=%v) but target is %d and %d CPUs are eligible; %s; scenario: %s; history=%v",
-						dir, size, c10FmtSet(list), attempted, want, e, where, s, hist)
-				}
-				return false
-			}
 			if s.NoTopo {
 				// without the topology object the agent cannot know the protected CPUs: it must not touch anything
-				for _, d := range allDirs {
-					if _, raw, attempted := read(d); attempted {
+				for _, d := range env.allDirs {
+					if _, raw, attempted := env.read(t, c, d, where); attempted {
 						c.Violation(t, "cpuset:written-without-topology", "%s written (%q) though the node topology object is missing; %s; scenario: %s", d, raw, where, s)
 						return
 					}
@@ -1362,55 +1452,12 @@ func TestVerifC10AdjustCPUSet(t *testing.T) {
 				hist = append(hist, where+" -> untouched")
 				continue
 			}
-			var result string
-			if !static {
-				// every BE cgroup (root, pod, container) gets the derived set
-				for i, d := range allDirs {
-					list, raw, attempted := read(d)
-					if !attempted {
-						list = nil
-					}
-					if exclusion(d, list) {
-						return
-					}
-					if i == 0 {
-						result = fmt.Sprintf("%q(written=%v)", raw, attempted)
-						if count(d, list, attempted) {
-							return
-						}
-					}
-				}
-			} else {
-				// static kubelet policy: root and pod level are reset to "everything not protected", containers get the derived set
-				for _, d := range allDirs[:1+len(s.BEDirs)] {
-					list, _, attempted := read(d)
-					if attempted && exclusion(d, list) {
-						return
-					}
-				}
-				for i, d := range ctrDirs {
-					list, raw, attempted := read(d)
-					if !attempted {
-						list = nil
-					}
-					if exclusion(d, list) {
-						return
-					}
-					if count(d, list, attempted) {
-						return
-					}
-					if i == 0 {
-						result = fmt.Sprintf("%q(written=%v)", raw, attempted)
-					}
-				}
+			result, abandon := env.observeSuppressed(t, c, where, hist, want, unlimited, step, oldN)
+			if abandon {
+				return
 			}
 			hist = append(hist, where+" -> "+result)
-			if s.V2 { // the kernel would refresh cpuset.cpus.effective
-				for _, d := range allDirs {
-					raw, _ := c10ReadTrim(fs.cpusetFile(d))
-					_ = c10WriteFile(fs.cpusetReadFile(d), raw)
-				}
-			}
+			env.refreshEffective()
 		}
 		if nontrivial {
 			c.NonTrivial(s.String(), hist)
